@@ -25,7 +25,17 @@ CLAIMED['C01'] = (
     'Static admission rules on every path of every planner: (prov) every state entering a returned path is a clone of a tree/roadmap node state or a start state; (admit) every non-root container push is dominated by the true edge of a motion check whose `to` argument is the pushed state, or of a validity query on it; (kernel) each motion checker answers true only through is_valid(to) or through the normal exit of an interpolation loop that validates every iterate, whose last iterate is t=1 and that cannot be entered with zero steps; (gate) every Ok of solve is behind the true edge of a validity query on the start state whose false edge returns only InvalidStartState; (root) tree roots are start states or are validated before any Ok.',
     'Trusted: rustc MIR, mirfacts; assumes S: Clone is value preserving and interpolate(a,b,1) == b (C10, not decided); node states immutable after insertion (C15).',
     'DESIGN.md section 4, C01')
-NOT_BUILT = ['C02', 'C03', 'C05', 'C06', 'C08', 'C13', 'C15', 'C16', 'C17', 'C18', 'C19']
+CLAIMED['C03'] = (
+    'link-write enumeration + dominating-guard matching per reaching definition over MIR; closed-form discretisation bound',
+    'Every way an edge is created (node literal with a parent, rewired parent store, adjacency-list pushes in both directions, search-root insertion for the PRM start connection) is enumerated from the MIR; for each reaching definition of the linked index (index lists transfer the obligation to their push sites) a motion check whose two state arguments are exactly the two end points must dominate the write. The step-count formula n = round(d/(L*c)) with direct-check threshold K is recognised and the worst-case gap max(c, K c) (ceil) must be <= 1 longest-valid-segment length; every get_longest_valid_segment_length depends on fraction and extent / all components and weights.',
+    'Trusted: rustc MIR, mirfacts; assumes distance-proportional interpolation (C10) and symmetry of the checked segment; relies on C01.kernel for "every iterate is queried".',
+    'DESIGN.md section 4, C03')
+CLAIMED['C05'] = (
+    'steer-shape recognition with polarity facts + dominating radius guards + interprocedural neighbour-list summary over MIR',
+    'Every link of every planner is covered either by the steer discipline (new state = target when d <= max_distance, interpolate(near, target, max_distance/d) only on the d > max_distance edge, d the distance between exactly near and target, max_distance the public field unmodified, link made to that same near node) or by a dominating distance(x,y) < R comparison on exactly its end points with R a public radius field; RRT* neighbour lists are summarised through find_neighbours. Decides the discipline the metric bound rests on, not the metric bound itself.',
+    'Trusted: rustc MIR, mirfacts; assumes d(a, interpolate(a,b,t)) = t d(a,b) (C10) and symmetric distance (C09).',
+    'DESIGN.md section 4, C05')
+NOT_BUILT = ['C02', 'C06', 'C08', 'C13', 'C15', 'C16', 'C17', 'C18', 'C19']
 for p in NOT_BUILT:
     if p not in CLAIMED:
         NOT_APPLICABLE[p] = 'not built yet (static rule designed in DESIGN.md section 4; moved to claimed when its check exists)'
